@@ -452,3 +452,185 @@ func mustInLoop(fi *FnInfo, l *SLoop, b *ssa.BasicBlock) bool {
 	}
 	return true
 }
+
+// ruleCommitTreeIndexCursor (C12/O12.5): the leaf index handed to the commit-phase tree of reduction step i is the
+// query index with the bits of all earlier steps AND of this step folded away — a cursor that accumulates over the
+// steps. A cursor that is overwritten instead of advanced (`folded = arityBits` for `folded += arityBits`) is right
+// for the first two steps — all the shipped proof has — and opens every later tree at the position of the second.
+//
+// Decided on the SSA form of the function that calls the Merkle routine from inside the loop over the reduction
+// arities. The argument bound to the routine's leaf-index parameter (the bit list the sibling loop indexes) is
+//
+//	(i)  xs[a:] of a header φ xs whose back-edge value is that same slice (the bit list itself is the cursor), or
+//	(ii) bits[E:] of a loop-invariant list, where E = c + a for a header φ c that starts at 0 and whose back-edge
+//	     value is, as a polynomial over SSA leaves, that same E (c advances by exactly what this step consumes).
+func ruleCommitTreeIndexCursor(cx *Ctx) []Obligation {
+	P := cx.P
+	key := "C12/O12.5/commit-tree-index-cursor"
+	desc := "the leaf index of the commit-phase tree of reduction step i is the query index without the bits of steps 0…i: the cursor over the index bits accumulates from step to step (it is the re-sliced bit list itself, or a counter that advances by exactly the bits this step consumes) — a cursor that is overwritten is right for the first two steps only"
+	// the Merkle routine and its leaf-index parameter
+	type merkle struct {
+		fn  *ssa.Function
+		idx int
+	}
+	var ms []merkle
+	for _, fn := range P.ModuleFuncsSorted() {
+		if fn.Blocks == nil {
+			continue
+		}
+		fi := GetFnInfo(fn)
+		for _, l := range fi.Loops {
+			if !l.Counted || l.Bound == nil {
+				continue
+			}
+			lx, ok := lenOfVal(l.Bound)
+			if !ok {
+				continue
+			}
+			if _, isSib := fieldLoad(stripCopies(lx), "Siblings"); !isSib {
+				continue
+			}
+			for b := range l.Blocks {
+				for _, ins := range b.Instrs {
+					ia, ok := ins.(*ssa.IndexAddr)
+					if !ok || ia.Index != l.IndexVal {
+						continue
+					}
+					if p, ok := ia.X.(*ssa.Parameter); ok {
+						if st, ok := p.Type().Underlying().(*types.Slice); ok && strings.HasSuffix(st.Elem().String(), "frontend.Variable") {
+							ms = append(ms, merkle{fn, paramIndex(fn, p)})
+						}
+					}
+				}
+			}
+		}
+	}
+	if len(ms) == 0 {
+		return []Obligation{undecided(key, desc, "the Merkle routine's leaf-index parameter (a bit list indexed by the sibling loop) was not found")}
+	}
+	var obs []Obligation
+	found := 0
+	for _, caller := range P.ModuleFuncsSorted() {
+		if caller.Blocks == nil {
+			continue
+		}
+		fi := GetFnInfo(caller)
+		for _, b := range caller.Blocks {
+			for _, ins := range b.Instrs {
+				c, ok := ins.(*ssa.Call)
+				if !ok {
+					continue
+				}
+				var m *merkle
+				for i := range ms {
+					if c.Common().StaticCallee() == ms[i].fn {
+						m = &ms[i]
+					}
+				}
+				if m == nil || m.idx >= len(c.Common().Args) {
+					continue
+				}
+				// only calls made per reduction step
+				var step *SLoop
+				for _, l := range fi.LoopsOf[b.Index] {
+					if l.Bound != nil && strings.HasSuffix(accessPath(stripCopies(func() ssa.Value {
+						if lv, ok := lenOfVal(l.Bound); ok {
+							return lv
+						}
+						return l.Bound
+					}()), 0), ".ReductionArityBits") {
+						step = l
+					}
+				}
+				if step == nil {
+					continue
+				}
+				found++
+				site := P.FnName(caller) + " " + P.Pos(c.Pos())
+				lb, ok := stripCopies(c.Common().Args[m.idx]).(*ssa.Slice)
+				if !ok || lb.Low == nil {
+					obs = append(obs, undecided(key, desc, "the leaf index bits handed to the commit-phase tree are not a suffix bits[k:] of a bit list at "+site))
+					continue
+				}
+				headerPhi := func(v ssa.Value) *ssa.Phi {
+					phi, ok := v.(*ssa.Phi)
+					if ok && phi.Block() == step.Header {
+						return phi
+					}
+					return nil
+				}
+				backOf := func(phi *ssa.Phi) (init, back ssa.Value) {
+					for i, p := range step.Header.Preds {
+						if step.Blocks[p] {
+							back = phi.Edges[i]
+						} else {
+							init = phi.Edges[i]
+						}
+					}
+					return
+				}
+				good1, why := false, ""
+				if xs := headerPhi(lb.X); xs != nil {
+					// (i) the bit list is the cursor
+					_, back := backOf(xs)
+					bs, isSl := stripCopies(back).(*ssa.Slice)
+					switch {
+					case back == ssa.Value(lb):
+						good1 = true
+					case isSl && bs.X == ssa.Value(xs) && bs.High == nil && ipolyEq(poly(bs.Low), poly(lb.Low)):
+						good1 = true
+					default:
+						why = "the bit list carried to the next step is not the list handed to this step's tree (the bits this step consumes are not dropped for the next one)"
+					}
+				} else if !step.Blocks[blockOf(lb.X)] {
+					// (ii) a counter over a loop-invariant bit list
+					pe := poly(lb.Low)
+					var cphi *ssa.Phi
+					for _, hi := range step.Header.Instrs {
+						phi, ok := hi.(*ssa.Phi)
+						if !ok {
+							break
+						}
+						if _, has := pe[phi.Name()]; has && phi != step.Phi {
+							cphi = phi
+						}
+					}
+					if cphi == nil {
+						why = "the start of the suffix does not depend on a cursor carried from step to step"
+					} else {
+						init, back := backOf(cphi)
+						i0, isC := constInt(init)
+						switch {
+						case !isC || i0 != 0:
+							why = "the cursor does not start at 0"
+						case pe[cphi.Name()] != 1:
+							why = "the suffix does not start at cursor + this step's bits"
+						case !ipolyEq(poly(back), pe):
+							why = "the cursor carried to the next step (" + back.String() + ") is not the position this step's tree was opened at: it does not accumulate the bits consumed so far"
+						default:
+							good1 = true
+						}
+					}
+				} else {
+					why = "the bit list is neither carried from step to step nor fixed for the round"
+				}
+				if good1 {
+					obs = append(obs, good(key, desc, site))
+				} else {
+					obs = append(obs, bad(key, desc, why, site))
+				}
+			}
+		}
+	}
+	if found == 0 {
+		obs = append(obs, undecided(key, desc, "no call of the Merkle routine inside a loop over the reduction arities was found"))
+	}
+	return obs
+}
+
+func blockOf(v ssa.Value) *ssa.BasicBlock {
+	if ins, ok := v.(ssa.Instruction); ok {
+		return ins.Block()
+	}
+	return nil
+}
